@@ -16,7 +16,8 @@ is one: `std_numIs`, and that printer prints every number unchanged: `std_num_un
 column to the clear marks (`ClearOK cx.w`, true of unicode-width), and every entry all of whose dates have a year
 `≤ 9999` (`datesOK e`, decidable; true of every tree the parser returns and of every `wfEntry` tree).
 
-Both hypotheses are necessary — the models do **not** agree without them (`not_agree_full`, `not_agree_clear`):
+Both hypotheses are necessary — the models do **not** agree without them (`not_agree_full`, `not_agree_clear`; `txn_disagree`:
+*every* transaction dated after 9999 is printed differently, for every context and width function):
 
 * a year above 9999: chrono's `%Y` writes an explicit `+` (`+12024/01/02`), and so does `Print.fmtDate`;
   `Date.fmtSlash` (used by `Unparse.printDate`) does not.  The real printer agrees with `Okane.Print`
@@ -526,6 +527,45 @@ theorem not_agree_full : ¬ agree_full := by
   have hh := header_length { date := ⟨12024, 1, 2⟩, payee := "x", posts := [] } (by decide) rfl
   simp [witYear, Unparse.printEntry, Unparse.printTransaction, printEntryG, entryLines, txnLines, unlines] at hl hh
   omega
+
+theorem NumChar.ne_plus {c : Char} (h : NumChar c) : c ≠ '+' := by
+  rcases h with ⟨k, hk, rfl⟩ | rfl | rfl | rfl
+  · revert k; decide
+  · decide
+  · decide
+  · decide
+
+/-- a date of a non-negative year is printed by `Unparse` with a digit first -/
+theorem printDate_head (d : Date) (h : 0 ≤ d.y) : ∃ c r, Unparse.printDate d = c :: r ∧ c ≠ '+' := by
+  have hneg : ¬ d.y < 0 := by omega
+  have e : Unparse.printDate d = padNat d.y.natAbs 4 ++ ('/' :: padNat d.m 2 ++ '/' :: padNat d.d 2) := by
+    simp [Unparse.printDate, Date.fmtSlash, hneg, pad_toList, String.toList_append]
+  have hmem : ∀ c ∈ padNat d.y.natAbs 4, NumChar c := by
+    intro c hc
+    rcases List.mem_append.mp hc with h1 | h1
+    · rw [(List.mem_replicate.mp h1).2]; exact numChar_zero
+    · exact mem_digits _ c h1
+  cases hp : padNat d.y.natAbs 4 with
+  | nil =>
+    have hd : Literal.digits d.y.natAbs ≠ [] := by
+      rw [Literal.digits]; split <;> simp
+    have : padNat d.y.natAbs 4 ≠ [] := by simp [padNat, hd]
+    exact absurd hp this
+  | cons c r =>
+    exact ⟨c, _, by rw [e, hp]; rfl, NumChar.ne_plus (hmem c (by rw [hp]; exact List.mem_cons_self))⟩
+
+/-- **every** transaction dated after the year 9999 is printed differently by the two models, whatever the width
+function and the context: `Print` (like chrono) starts with `+`, `Unparse` with a digit -/
+theorem txn_disagree (cx : Ctx) (w : List Char → Nat) (t : Transaction) (h : 9999 < t.date.y) :
+    Unparse.printEntry w (.txn t) ≠ printEntryG cx (.txn t) := by
+  obtain ⟨c, r, hc, hne⟩ := printDate_head t.date (by omega)
+  intro heq
+  have h1 : (Unparse.printEntry w (.txn t)).head? = some c := by
+    simp [Unparse.printEntry, Unparse.printTransaction, Unparse.printTxnHeader, hc]
+  have h2 : (printEntryG cx (.txn t)).head? = some '+' := by
+    simp [printEntryG, entryLines, txnLines, unlines, txnHeader, fmtDate_eq_plus_printDate t.date h]
+  rw [heq, h2] at h1
+  exact hne (Option.some.inj h1).symm
 
 /-- a cleared posting, printed in a context where `*` is two columns wide -/
 def witClear : Entry :=
